@@ -181,7 +181,10 @@ class PumlParser(DiagramParser):
                 self._unify_module(dependee, all_aliases) for dependee in dependees
             }
 
-            unified_dependencies[unified_dependor] = unified_dependees
+            # a component may be referred to by alias in one line and by name in another
+            unified_dependencies.setdefault(unified_dependor, set()).update(
+                unified_dependees
+            )
 
         unified_modules = self._get_unified_modules(modules, unified_dependencies)
 
